@@ -153,8 +153,10 @@ def to_rbody(b) -> RBody:
 
 
 # ------------------------------------------------------------------------------------------------------------------ the matrix
-def cases() -> Iterator[Tuple[str, List[Any], List[Any], str]]:
+def cases(thorough: bool = False) -> Iterator[Tuple[str, List[Any], List[Any], str]]:
     """(prim, args, stack specs (top first), description).  args: ints, type specs, bodies."""
+    if thorough:
+        yield from deep_cases()
     a, b, c, d = L('nat', 'a'), L('string', 'b'), L('bytes', 'c'), L('int', 'd')
     z = L('mutez', 'z')  # sentinel below the operands
     fa, fb = L('nat', 'a', f='x'), L('string', 'b', f='y')
@@ -240,6 +242,50 @@ def cases() -> Iterator[Tuple[str, List[Any], List[Any], str]]:
     yield 'EXEC', [], [nested, Lam(tcls(ty_of(nested)), ('pair', 'nat', 'nat'), B('Lb', 1, [('pair', 'nat', 'nat')])), z], 'EXEC on pairs'
 
 
+def deep_cases() -> Iterator[Tuple[str, List[Any], List[Any], str]]:
+    """Thorough tier: deeper stacks, longer combs (with every inner annotation pattern), longer collections."""
+    import itertools
+    z = L('mutez', 'z')
+    prims = ['nat', 'string', 'bytes', 'int', 'bool', 'address', 'key_hash']
+    vals = [L(p, f'v{i}') for i, p in enumerate(prims)]
+    for n in range(0, 7):
+        yield 'DIG', [n], vals + [z], f'DIG {n} on 7 values'
+        yield 'DUG', [n], vals + [z], f'DUG {n} on 7 values'
+        yield 'DROP', [n], vals + [z], f'DROP {n} on 7 values'
+        if n >= 1:
+            yield 'DUP', [n], vals + [z], f'DUP {n} on 7 values'
+        if n >= 2:
+            yield 'PAIR', [n], vals + [z], f'PAIR {n} on 7 values'
+        for k in (1, 2):
+            yield 'DIP', [n, B('Dp', k, ['int'] * (3 - k))], vals + [z], f'DIP {n} with a block popping {k}'
+    for size in (5, 6):
+        inner = size - 2
+        for marks in itertools.product(['', 'f', 'n'], repeat=inner):
+            def build(i: int):
+                if i == size - 2:
+                    node = P(vals[i], vals[i + 1])
+                else:
+                    node = P(vals[i], build(i + 1))
+                if i > 0 and marks[i - 1]:
+                    node = ('pair', node[1], node[2], f'x{i}' if marks[i - 1] == 'f' else None, f'y{i}' if marks[i - 1] == 'n' else None)
+                return node
+            comb = build(0)
+            what = f'comb of {size}, inner annotations {"".join(m or "-" for m in marks)}'
+            for n in range(2, size + 1):
+                yield 'UNPAIR', [n], [comb, z], f'UNPAIR {n} on {what}'
+            for n in range(0, 2 * size - 1):
+                yield 'GET', [n], [comb, z], f'GET {n} on {what}'
+                yield 'UPDATE', [n], [L('unit', 'u'), comb, z], f'UPDATE {n} on {what}'
+    xs = [L('nat', f'x{i}') for i in range(4)]
+    yield 'MAP', [B('Mb', 2, ['string', 'int'])], [Lst('nat', *xs), L('int', 'acc'), z], 'MAP over a list of 4 with an accumulator'
+    yield 'ITER', [B('It', 2, ['int'])], [Lst('nat', *xs), L('int', 'acc'), z], 'ITER over a list of 4'
+    kv = [(P(L('int', f'k{i}'), L('nat', f'j{i}')), L('string', f'w{i}')) for i in range(3)]
+    yield 'MAP', [B('Mb', 1, ['bytes'])], [Mp(('pair', 'int', 'nat'), 'string', *kv), z], 'MAP over a map of 3 with pair keys'
+    yield 'ITER', [B('It', 2, ['int'])], [Mp(('pair', 'int', 'nat'), 'string', *kv), L('int', 'acc'), z], 'ITER over a map of 3 with pair keys'
+    yield 'IF_CONS', [B('C', 2, ['bytes']), B('Nl', 0, ['bytes'])], [Lst('nat', *xs), z], 'IF_CONS on a list of four'
+    yield 'CONS', [], [L('nat', 'h'), Lst('nat', *xs), z], 'CONS on a list of four'
+
+
 # ------------------------------------------------------------------------------------------------------------------ running
 def find_class(repo: Repo, prim: str, nargs: int) -> Optional[str]:
     base = 'pytezos.michelson.instructions.base.MichelsonInstruction'
@@ -278,7 +324,7 @@ def norm_repo(res: List[PathResult]) -> List[Dict[str, Any]]:
     return out
 
 
-def run_case(repo: Repo, prim: str, args: List[Any], stack: List[Any]) -> Tuple[Optional[str], List[Dict[str, Any]], List[Dict[str, Any]]]:
+def run_case(repo: Repo, prim: str, args: List[Any], stack: List[Any], unroll: int = 3) -> Tuple[Optional[str], List[Dict[str, Any]], List[Dict[str, Any]]]:
     nargs = len(args)
     q = find_class(repo, prim, nargs)
     if q is None:
@@ -286,8 +332,8 @@ def run_case(repo: Repo, prim: str, args: List[Any], stack: List[Any]) -> Tuple[
     undefined = Obj(UNDEF, {}, tag='Undefined')
     ra, fa = conv_args(args, undefined)
     hooks_extra = {'_undefined': undefined}
-    res = run_typed(repo, q, [to_obj(s, undefined) for s in stack], ra, extra=hooks_extra)
-    ref = outcomes(prim, fa, [to_ref(s) for s in stack])
+    res = run_typed(repo, q, [to_obj(s, undefined) for s in stack], ra, extra=hooks_extra, loop_unroll=unroll)
+    ref = outcomes(prim, fa, [to_ref(s) for s in stack], max_choices=unroll + 1)
     return q, norm_repo(res), ref
 
 
